@@ -320,6 +320,19 @@ fn parse_v_model_directive(
         value = attr_value.clone();
     }
 
+    let value = if is_assignment_target(&value) {
+        value
+    } else {
+        // the listener assigns to it: `(value) = $event`
+        HANDLER.with(|handler| {
+            handler.span_err(
+                jsx_attr.span,
+                "The value of `v-model` must be an assignable expression (an identifier or a member expression).",
+            );
+        });
+        Expr::Ident(quote_ident!("").into())
+    };
+
     Directive::VModel(VModelDirective {
         argument: argument.clone(),
         transformed_argument: if !is_component
@@ -337,6 +350,19 @@ fn parse_v_model_directive(
         modifiers: modifiers.and_then(|modifiers| transform_modifiers(modifiers, is_component)),
         value,
     })
+}
+
+/// Can `expr` stand on the left of `=`? (TypeScript's type-only wrappers don't matter.)
+fn is_assignment_target(expr: &Expr) -> bool {
+    match expr {
+        Expr::Ident(..) | Expr::Member(..) | Expr::SuperProp(..) => true,
+        Expr::Paren(ParenExpr { expr, .. })
+        | Expr::TsAs(TsAsExpr { expr, .. })
+        | Expr::TsNonNull(TsNonNullExpr { expr, .. })
+        | Expr::TsSatisfies(TsSatisfiesExpr { expr, .. })
+        | Expr::TsTypeAssertion(TsTypeAssertion { expr, .. }) => is_assignment_target(expr),
+        _ => false,
+    }
 }
 
 fn transform_modifiers(modifiers: BTreeSet<Atom>, quote_prop: bool) -> Option<Expr> {
